@@ -404,6 +404,9 @@ where
                             if pr.cookie.is_empty() {
                                 break;
                             }
+                            // The page's result has served its purpose; it's not the result of the
+                            // Search if we stop, or fail, before the last page.
+                            stream.res = None;
                             let ldap_ref = self.ldap.as_ref().expect("ldap_ref");
                             let mut ldap = ldap_ref.clone();
                             ldap.timeout = ldap_ref.timeout;
@@ -433,9 +436,6 @@ where
                             // the contents of the new one.
                             stream.ldap = new_stream.ldap;
                             stream.rx = new_stream.rx;
-                            // The previous page's result has served its purpose; it's not the
-                            // result of the Search if we stop before the last page.
-                            stream.res = None;
                             continue 'ent;
                         }
                     }
